@@ -151,7 +151,7 @@ class PathRun:
                 return v[1]
             return self.field_of_expr(st)
         v = self.value(st)
-        if v[0] == "addr":
+        if v[0] in ("addr", "objref"):
             return v[1]
         return self.field_of_expr(st)
 
@@ -210,7 +210,11 @@ class PathRun:
                 init = f.s(d["init"])
                 if d.get("ref"):
                     fld = self.field_of_expr(init)
-                    v = ("atomref", fld) if fld else ("unknown",)
+                    if fld:
+                        v = ("atomref", fld)
+                    else:
+                        tg = self.target(init)      # T& target = *firstWriteLocation;
+                        v = ("objref", tg) if tg else ("unknown",)
                 else:
                     v = self.value(init)
                 self.env["l:" + d["name"]] = v
